@@ -21,7 +21,7 @@ func checkC07(w *World, r *Report) {
 	r.Rule("C07.transfer", "P6", "the bank transfer sender->recipient carries the same Coins, between the same two addresses, only after unlock and account creation succeeded", 3)
 	r.Rule("C07.guard", "P5", "the sender's account is modified only after amount <= LockedCoins(now) (IsAllLTE true edge) and after the type test for ContinuousVestingAccount succeeded", 4)
 	r.Rule("C07.writes", "P4", "in the unlock function the only field of the sender's account that is stored is OriginalVesting, by subtraction from itself", 2)
-	r.Rule("C07.reduction", "P6", "every amount taken off the sender's OriginalVesting is either trunc(coin.Amount x OriginalVesting.AmountOf(denom) / GetVestingCoins(now).AmountOf(denom)) for the requested coin, or the constant rounding compensation; nothing else is subtracted", 2)
+	r.Rule("C07.reduction", "P6", "every amount taken off the sender's OriginalVesting is either trunc(coin.Amount x OriginalVesting.AmountOf(denom) / GetVestingCoins(now).AmountOf(denom)) for the requested coin, or the constant rounding compensation; nothing else is subtracted; the compensation is decided by a comparison derived from the SDK's GetVestingCoins on the reduced account, not from a re-derived formula", 3)
 	r.Rule("C07.errprop", "P5", "= C05.errprop on the split / move trees: the unlock, the creation of the recipient and the transfer report their failure upward - a split whose transfer failed is never reported as done (the sender's vesting was already reduced and stored by then)", 5)
 	r.Rule("C07.move", "P6", "the move handlers pass LockedCoins(from) / its restriction to the requested denominations as the amount", 2)
 	if !ro.checkFloors(r) {
@@ -177,6 +177,41 @@ func checkC07(w *World, r *Report) {
 					}
 				}
 				proportional := o2.HasOp("Dec.Quo") && (o2.HasOp("Dec.Mul") || o2.HasOp("Dec.MulInt") || o2.HasOp("Dec.MulTruncate")) && o2.HasOp("Dec.TruncateInt") && o2.HasPath("Amount") && o2.HasCall("AmountOf") && o2.HasCall("GetVestingCoins")
+				if isConst {
+					// the compensation is applied exactly when the SDK's own vesting formula, evaluated on the account after the
+					// proportional reduction, shows that less than the requested amount was unlocked: the deciding comparison
+					// derives from ContinuousVestingAccount.GetVestingCoins and the requested amount - not from a re-derivation of
+					// the vesting formula (which rounds differently from the SDK and the bank's LockedCoins)
+					sf := fs.Store.Parent()
+					var cond ssa.Value
+					for b := fs.Store.Block(); b != nil && cond == nil; b = b.Idom() {
+						i := blockIf(b)
+						if i == nil || b == fs.Store.Block() {
+							continue
+						}
+						for si := range b.Succs {
+							if MustPass(sf, []Edge{{b, si}}, fs.Store.Block()) {
+								cond, _ = stripNot(i.Cond)
+							}
+						}
+					}
+					okDec, why := false, "no deciding comparison found"
+					if cond != nil {
+						oc := w.Tracer().Origins(cond)
+						usesSDK := oc.HasCall("ContinuousVestingAccount.GetVestingCoins")
+						ownFormula := oc.HasPath("StartTime") || oc.HasPath("EndTime") || oc.HasOp("Dec.Quo") || oc.HasOp("Dec.QuoInt64") || oc.HasOp("Dec.RoundInt")
+						okDec = usesSDK && !ownFormula && oc.HasPath("Amount")
+						switch {
+						case !usesSDK:
+							why = "the comparison does not evaluate the SDK's GetVestingCoins on the reduced account"
+						case ownFormula:
+							why = "the comparison re-derives the vesting amount from the schedule (StartTime / EndTime, division, rounding) instead of asking the SDK: the two round differently, so the one-unit compensation is decided wrongly for some amounts and instants"
+						default:
+							why = "the comparison does not involve the requested amount"
+						}
+					}
+					r.Check(okDec, "C07.reduction", fmt.Sprintf("unlock: the rounding compensation #%d is decided by the SDK's vesting formula", nred), w.Pos(nc.Pos()), "comparison of (vesting before - GetVestingCoins(now) after) with the requested amount", why)
+				}
 				r.Check(isConst || proportional, "C07.reduction", fmt.Sprintf("unlock: amount taken off OriginalVesting #%d", nred), w.Pos(nc.Pos()),
 					map[bool]string{true: "the constant rounding compensation", false: "trunc(requested amount x original / vesting) of the denomination"}[isConst],
 					"the amount taken off OriginalVesting is not the requested amount scaled by original/vesting (origins: "+o2.String()+")")
